@@ -22,18 +22,20 @@ What is proved here, and of what:
   re-checked by `decide +kernel` on every run):
     `C05_program_disciplined_partial`, `C05_program_ranked`, `C05_program_gated` and their
     consequences `C05_program_race_free_partial`,
-    `C05_program_deadlock_free_partial` for every set of goroutines that
+    `C05_program_deadlock_free` for every set of goroutines that
     conforms to the tables (the explicit statement of what the extractor is
     trusted for).
 
-The full per-program statements
+The lock-order statements are FULL since R4, R5 and R11 are repaired in the tree
+(`C05_program_lock_order`, `C05_program_deadlock_free`; the historical
+counterexample is `C05_counterexample_lock_order_before_fix`).  The full
+access statement
     theorem C05_program_disciplined : accesses.all (rowOK guards) = true
-    theorem C05_program_lock_order  : ∃ rank, ∀ e ∈ edges ++ knownEdges, rank e.1 < rank e.2
-are FALSE for the current tree: `C05_counterexample_known_rows` and
-`C05_counterexample_lock_order` prove the negations on the rows / the cycle the
-extractor marks as reported findings (R2–R9 in guards.json; the race harness
-reports them with a replay, they are not exemptions).  The `_partial` theorems
-cover the goroutines that never execute a known-bad site / nested acquisition.
+is still FALSE: `C05_counterexample_known_rows` proves the negation on the 20
+rows of the one finding left (R7 rest: request-path reads of Server fields that
+only Reconfigure > Prepare rewrites; listed in known_findings.txt under the
+reason class `static:known-rows:R7:…`, printed on every run).  The `_partial`
+theorems cover the goroutines that never execute one of those sites.
 
 Not covered by any theorem (named in DESIGN §2 C05): panics from logic,
 well-formedness and latency of responses, channel protocols, atomics,
@@ -45,6 +47,7 @@ import AGH.Lemmas.LocksCycle
 import AGH.Lemmas.LocksExamples
 import AGH.Lemmas.LocksGate
 import AGH.Lemmas.LocksGateExamples
+import AGH.Lemmas.LocksChan
 import AGH.Gen.C05Locks
 namespace AGH.C05
 open AGH.Gen.C05
@@ -113,7 +116,8 @@ theorem C05_model_meets_spec :
 /-- The run monitor is exactly the property text: it accepts an observation iff
 it reports no race, no panic, no deadlock and no malformed response. -/
 theorem C05_specRun_iff (o : RunObs) :
-    specRun o = true ↔ o.races = 0 ∧ o.panics = 0 ∧ o.deadlocks = 0 ∧ o.malformed = 0 := by
+    specRun o = true ↔ o.races = 0 ∧ o.panics = 0 ∧ o.deadlocks = 0 ∧ o.malformed = 0 ∧
+      o.untabled = 0 := by
   simp [specRun, and_assoc]
 
 /-! ### the program of this tree -/
@@ -155,17 +159,51 @@ critical section of `filtersInitializerLock` that drains the channel. -/
 theorem C05_program_no_blocking_under_lock : chanOpsJustified chanOps = true := by
   decide +kernel
 
+/-- The discipline behind the `drained_under` rows of obligation 4: on a channel
+of capacity ≥ 1, if every send is preceded since the last send by a drain (what
+the extractor checks structurally, the pairs of different senders being
+serialised by the lock named in the row), no send ever finds the buffer full,
+whatever the receivers do — the sender cannot block on the channel while it
+holds its locks. -/
+theorem C05_drained_send_never_blocks (cap : Nat) (hcap : 1 ≤ cap) (tr : List ChanStep)
+    (len : Nat) (hlen : len ≤ cap) (hok : sendOK false tr = true) :
+    (chanRun cap len tr).isSome = true :=
+  drained_send_never_blocks cap hcap tr len hlen hok
+
 /-- Obligation 5 (regenerated table): every check-then-act pattern across two
 critical sections of the same lock (see `CtaRow`) is in the reviewed baseline.
 A table obligation, like obligation 4: values are outside the lock machine. -/
 theorem C05_program_check_then_act_reviewed : ctaReviewed ctaRows = true := by
   decide +kernel
 
-/-- Every goroutine set whose blocking nested acquisitions are (non-finding)
-edges of the table and whose acquisitions of gated locks come from non-finding
-sites of the table, with balanced releases, is free of deadlocks and wait-for
-cycles under every interleaving. -/
-theorem C05_program_deadlock_free_partial (p : List (List LEvent))
+/-- Since R4, R5 and R11 are repaired in the tree, NO lock-order edge and NO
+acquisition of a gated lock is excluded any more: the exclusion lists are
+empty (this theorem stops checking, and has to be restated, if a finding is
+ever listed again). -/
+theorem C05_program_no_excluded_order_facts :
+    knownEdges = [] ∧ knownCycle = [] ∧ acqs.all (fun a => !a.known) = true := by
+  decide +kernel
+
+/-- The FULL lock-order statement, over every extracted edge: a rank function
+exists under which every nested, possibly blocking acquisition of the program
+goes up.  (False before the fixes: `C05_counterexample_lock_order_before_fix`.) -/
+theorem C05_program_lock_order :
+    ∃ rank : Nat → Nat, ∀ e ∈ edges ++ knownEdges, rank e.1 < rank e.2 := by
+  refine ⟨rankOf ranks, ?_⟩
+  have hk : knownEdges = [] := C05_program_no_excluded_order_facts.1
+  have hr := C05_program_ranked
+  simp only [edgesRanked, List.all_eq_true, decide_eq_true_eq] at hr
+  intro e he
+  rw [hk, List.append_nil] at he
+  exact hr e he
+
+/-- Every goroutine set whose blocking nested acquisitions are edges of the
+table and whose acquisitions of gated locks come from sites of the table, with
+balanced releases, is free of deadlocks and wait-for cycles under every
+interleaving.  No finding is excluded (see above), so this is the full
+statement; the hypothesis is the extractor-soundness assumption, which the
+instrumented `sync` of the stress runs checks on what they exercise. -/
+theorem C05_program_deadlock_free (p : List (List LEvent))
     (hc : ∀ t ∈ p, conformsOrdG edges gates acqs [] t = true) :
     ∀ s, Reach (init (p.map eraseLabels)) s → ¬ Deadlock s ∧ ∀ i, ¬ WaitChain s i i := by
   have hr : progRankedG (rankOf ranks) (gateFn gates) (p.map eraseLabels) = true := by
@@ -184,15 +222,6 @@ theorem C05_counterexample_known_rows :
     accesses.all (fun a => !a.known || !rowOK guards a) = true := by
   decide +kernel
 
-/-- Every acquisition row marked as a reported finding does take a gated lock
-without its gate and holds it while acquiring something else. -/
-theorem C05_counterexample_known_acqs :
-    acqs.all (fun a => !a.known || !(a.leaf ||
-      (match lookup gates a.lock with
-       | none => true
-       | some g => a.heldShared.contains g || a.heldExcl.contains g))) = true := by
-  decide +kernel
-
 /-- Dropping the gate is not harmless: a reader that takes the gated lock without
 the gate and then a lock the flusher holds is a reachable deadlock of the
 machine (the pattern of finding R11 and of the seeded stats change). -/
@@ -200,25 +229,20 @@ theorem C05_counterexample_ungated_reader :
     ∃ s, Reach (init exUngated) s ∧ Deadlock s :=
   exUngated_deadlock
 
-/-- The witness the extractor gives for the reported lock-order findings is a
-cycle of the full edge relation (or there is no such finding). -/
-theorem C05_known_cycle_checked :
-    (knownCycle == [] || cycleIn (edges ++ knownEdges) knownCycle) = true := by
-  decide +kernel
+/-- The lock order of the tree BEFORE the fixes (c4d7229 R4, 863506e R5) was
+cyclic: the edges the extractor found then — the re-entrant read lock
+`dnsforward.Server.serverLock -> dnsforward.Server.serverLock` (R4; class 12 of
+the table of that tree) and the inversion `home.tlsManager.mu (29) <->
+home.configuration.RWMutex (26)` (R5) — admit no rank function.  (Reverting
+either commit makes `C05_program_ranked` fail on the regenerated table.) -/
+def edgesBeforeFix : List (Nat × Nat) := [(12, 12), (29, 26), (26, 29)]
 
-/-- With the reported lock-order findings included, NO rank function exists:
-the full lock order of this tree is cyclic. -/
-theorem C05_counterexample_lock_order (h : knownCycle ≠ []) :
-    ∀ rank : Nat → Nat, ¬ (∀ e ∈ edges ++ knownEdges, rank e.1 < rank e.2) := by
-  have hc := C05_known_cycle_checked
-  have : cycleIn (edges ++ knownEdges) knownCycle = true := by
-    cases hk : knownCycle with
-    | nil => exact absurd hk h
-    | cons a r => simpa [hk] using hc
-  exact no_rank_of_cycle _ _ this
+theorem C05_counterexample_lock_order_before_fix :
+    ∀ rank : Nat → Nat, ¬ (∀ e ∈ edgesBeforeFix, rank e.1 < rank e.2) :=
+  no_rank_of_cycle edgesBeforeFix [12] (by decide)
 
-/-- The cyclic lock order is not harmless: the recursive read-lock pattern of
-finding R4 (a goroutine re-acquires a read lock it already holds while a writer
+/-- A cyclic lock order is not harmless: the recursive read-lock pattern of
+finding R4 (repaired) (a goroutine re-acquires a read lock it already holds while a writer
 is pending) is a reachable deadlock of the machine. -/
 theorem C05_counterexample_recursive_rlock :
     ∃ s, Reach (init exRecursiveRead) s ∧ Deadlock s :=
